@@ -361,6 +361,9 @@ def run_case(case, ctx):
             best = ok_modes[0]
             ctx.cls('auto:selected')
             rev_ok = feasible(best, 'r')
+            if rev_ok is None:
+                ctx.skip('metric-on-threshold')
+                continue
             exp_block = None if rev_ok else 'MODE_NOT_FEASIBLE'
             if rq.tsp_mode != best or (blocked not in (exp_block,)):
                 ctx.violation('auto-mode-selection', f'auto {a}->{z} (spacing {spacing * 1e-9} GHz): selected '
